@@ -191,7 +191,8 @@ class MinErrorFlow():
                 for (u, v) in self.G.edges() 
             ]
         )
-        self.ub = self.w_max * self.G.number_of_edges()
+        # (in Python arithmetic: the product of a fixed-width numpy scalar wraps around, np.uint8(60) * 5 = 44)
+        self.ub = float(self.w_max) * self.G.number_of_edges()
 
         self._create_solver()
 
